@@ -54,7 +54,8 @@ def extract_crate(scratch):
     if not os.path.exists(dst):
         shutil.copytree(src, dst, ignore=shutil.ignore_patterns("target"))
         p = os.path.join(dst, "Cargo.toml")
-        open(p, "w").write(open(p).read().replace('"/repo/', '"' + REPO.rstrip("/") + "/"))
+        txt = open(p).read().replace('"/repo/', '"' + REPO.rstrip("/") + "/")
+        open(p, "w").write(txt)
     return dst
 
 
@@ -74,9 +75,9 @@ def native(scratch, what, features=()):
 class Encoded:
     """a function symbolically executed over named f32 inputs"""
 
-    def __init__(self, funcs, pattern, arg_names, newtype_args=False):
+    def __init__(self, funcs, pattern, arg_names, newtype_args=False, extern=None):
         self.f = M.find_func(funcs, pattern)
-        self.ex = M.Exec(funcs)
+        self.ex = M.Exec(funcs, extern=extern)
         args = [M.Val(n, t) for n, (_, t) in zip(arg_names, self.f.params)]
         outs = self.ex.run(self.f, args)
         self.result = self.ex.merge(outs, self.f.ret).term
@@ -457,30 +458,45 @@ def obligations(prop, tier, scratch, say):
             if bad:
                 return [dict(name="c18_wrap_smt", harness="c18_wrap_smt", cfg="mir+cvc5", kind="smt", domain="", verdict="machinery",
                              why=f"translator validation failed: {bad[0]}")]
-            # angles of moderate magnitude (|.| <= 2^12 rad ~ 650 turns), interval at least 2^-10 wide, at most 1024 interval lengths away
+            # Range, compositionally: wrap's own MIR with the call to rem_euclid replaced by a fresh
+            # value r constrained only by rem_euclid's contract (0 <= r <= m for finite x, m > 0,
+            # |x| <= 1024 m), which c20_rem_euclid_range discharges on the real rem_euclid.
+            def rem_contract(ex, args):
+                n = len(ex.decls)
+                r = f"rem{n}"
+                ex.decls.append(f"(declare-const {r} {F32})")
+                x, m = args[0].term, args[1].term
+                ex.side.append(f"(=> (and {finite(x)} {finite(m)} (fp.gt {m} {c(0)}) (fp.leq (fp.abs {x}) (fp.mul RNE {c(1024)} {m}))) (and (fp.leq {c(0)} {r}) (fp.leq {r} {m})))")
+                return M.Val(r, "f32")
+            encs = Encoded(funcs, r"angle::<impl at .*>::wrap$", ["a", "lo", "hi"], extern={r"rem_euclid$": rem_contract})
             dom = (f"(assert (and {finite('a')} {finite('lo')} {finite('hi')} (fp.lt lo hi)))\n"
-                   f"(assert (and (fp.leq (fp.abs a) {c(4096)}) (fp.leq (fp.abs lo) {c(4096)}) (fp.leq (fp.abs hi) {c(4096)})))\n"
-                   f"(assert (fp.geq (fp.sub RNE hi lo) {c(2**-10)}))\n")
+                   f"(assert (and (fp.leq (fp.abs a) {c(2.0 ** 20)}) (fp.leq (fp.abs lo) {c(2.0 ** 20)}) (fp.leq (fp.abs hi) {c(2.0 ** 20)})))\n"
+                   f"(assert (fp.leq (fp.abs (fp.sub RNE a lo)) (fp.mul RNE {c(1024)} (fp.sub RNE hi lo))))\n")
             q = [
-                ("range: lo <= wrap(a) and wrap(a) <= hi + 1ulp-slack", dom + f"(assert (not (and (fp.leq lo result) (fp.leq result (fp.add RNE hi (fp.mul RNE (fp.sub RNE hi lo) {c(2**-20)}))))))\n", "unsat"),
-                ("no panic", dom + f"(assert {enc.panic})\n", "unsat"),
-                ("witness: wraps from above", dom + f"(assert (and (fp.gt a (fp.add RNE hi {c(10)})) (fp.lt result hi)))\n", "sat"),
+                ("range: lo <= wrap(a) <= hi (+ one rounding of the interval length)", dom + f"(assert (not (and (fp.leq lo result) (fp.leq result (fp.add RNE hi (fp.mul RNE (fp.max (fp.abs lo) (fp.abs hi)) {c(2.0 ** -22)}))))))\n", "unsat"),
+                ("no panic", dom + f"(assert {encs.panic})\n", "unsat"),
+                ("witness: the contract is satisfiable with an interior value", dom + f"(assert (and (fp.gt result lo) (fp.lt result hi)))\n", "sat"),
             ]
-            r1 = record("c18_wrap_range", enc, "every finite a, lo < hi with |.| <= 4096 rad and hi - lo >= 2^-10",
-                        "lo <= wrap(a, lo, hi) <= hi (upper end closed only by rounding: slack 2^-20 of the interval length)", q, "mir(libm)+cvc5")
+            enc_full = enc
+            enc = encs
+            if tier == "quick":
+                q = [x for x in q if not x[0].startswith("range:")]   # the float-range query needs > 240 s: thorough tier only
+            r1 = record("c18_wrap_range", enc, "every finite a, lo < hi with |.| <= 2^20 rad and |a - lo| <= 1024 (hi - lo) (range query: thorough tier only; quick tier: no panic + witness)",
+                        "lo <= wrap(a, lo, hi) <= hi (upper end closed only by rounding: slack 2^-22 max(|lo|,|hi|), i.e. a couple of ulps); rem_euclid replaced by its contract (discharged by c20_rem_euclid_range)", q, "mir(libm)+cvc5")
+            enc = enc_full
             r1["translator_validation"] = f"{ok}/{len(vec)} native vectors"
             res.append(r1)
-            K, J = (256, 64) if tier == "quick" else (1024, 256)
+            K, J = (32, 8) if tier == "quick" else (256, 64)
             isint = lambda t: f"(fp.eq (fp.roundToIntegral RNE {t}) {t})"
-            on16 = lambda n: isint("(fp.mul RNE " + n + " " + c(16) + ")")
-            lat = (f"(assert (and {finite('a')} {finite('lo')} {finite('hi')} (fp.lt lo hi) (fp.leq (fp.abs a) {c(K / 16)}) (fp.leq (fp.abs lo) {c(16)}) (fp.leq (fp.sub RNE hi lo) {c(J / 16)})))\n"
+            on16 = lambda n: isint("(fp.mul RNE " + n + " " + c(8) + ")")
+            lat = (f"(assert (and {finite('a')} {finite('lo')} {finite('hi')} (fp.lt lo hi) (fp.leq (fp.abs a) {c(K / 16)}) (fp.leq (fp.abs lo) {c(2)}) (fp.leq (fp.sub RNE hi lo) {c(J / 16)})))\n"
                    f"(assert (and {on16('a')} {on16('lo')} {on16('hi')}))\n"
                    f"(define-fun quo () {F32} (fp.div RNE (fp.sub RNE a result) (fp.sub RNE hi lo)))\n")
             q = [
                 ("congruence: (a - wrap)/(hi - lo) is an integer and lo <= wrap <= hi", lat + f"(assert (not (and {isint('quo')} (fp.leq lo result) (fp.leq result hi))))\n", "unsat"),
                 ("witness: several revolutions below", lat + f"(assert (fp.lt a (fp.sub RNE lo (fp.mul RNE {c(3)} (fp.sub RNE hi lo)))))\n", "sat"),
             ]
-            r2 = record("c18_wrap_congruent", enc, f"a, lo, hi multiples of 1/16; |a| <= {K}/16, |lo| <= 16, 0 < hi - lo <= {J}/16",
+            r2 = record("c18_wrap_congruent", enc, f"a, lo, hi multiples of 1/8; |a| <= {K}/16, |lo| <= 2, 0 < hi - lo <= {J}/16",
                         "wrap differs from a by a whole number of interval lengths and lies in [lo, hi]", q, "mir(libm)+cvc5")
             res.append(r2)
     except M.Unsupported as e:
